@@ -12,4 +12,6 @@ if ! cmp -s _CoqProject.new _CoqProject; then mv _CoqProject.new _CoqProject; co
 flock -u 9; exec 9>&-
 # memory guard: a runaway coqc must not take the machine down
 ulimit -v ${VERIF_COQ_MEM_KB:-25000000} 2>/dev/null
+# deep proof terms / vm_compute on long lists need a large stack
+ulimit -s unlimited 2>/dev/null || ulimit -s 4000000 2>/dev/null
 exec timeout ${VERIF_MAKE_TIMEOUT:-1500} make -j${VERIF_JOBS:-16} "$@"
